@@ -513,6 +513,8 @@ fn spaces(tier: Tier) -> Vec<Space> {
             Space { alpha: "TERN", depth: 3 },
             Space { alpha: "CASE", depth: 2 },
             Space { alpha: "CASE", depth: 3 },
+            Space { alpha: "PAY", depth: 2 },
+            Space { alpha: "PAY", depth: 3 },
             Space { alpha: "QSYM", depth: 3 },
             Space { alpha: "QSYM", depth: 4 },
             Space { alpha: "CROSS", depth: 3 },
@@ -545,6 +547,8 @@ fn spaces(tier: Tier) -> Vec<Space> {
             Space { alpha: "TERN", depth: 3 },
             Space { alpha: "CASE", depth: 2 },
             Space { alpha: "CASE", depth: 3 },
+            Space { alpha: "PAY", depth: 2 },
+            Space { alpha: "PAY", depth: 3 },
             Space { alpha: "QSYM", depth: 3 },
             Space { alpha: "QSYM", depth: 4 },
             Space { alpha: "CROSS", depth: 3 },
@@ -635,7 +639,7 @@ impl Prop for Cong {
         // the oracle does not depend on how the harness names become slots: the cheap segments are also run with
         // slot names that look exactly like the library's next fresh slot and with textual names in reverse order
         let name = &segs[seg].seg.name;
-        let cheap = name.ends_with("^1") || ["MICRO^2", "SAME^2", "SHARE^2", "A0^2", "MICRO^3", "SAME^3", "CASC^2", "CASC^3", "TERN^2", "CASE^2"].contains(&name.as_str()) || (tier == Tier::Thorough && ["CORE^2", "BIND^2", "T3^2", "SELF^2"].contains(&name.as_str()));
+        let cheap = name.ends_with("^1") || ["MICRO^2", "SAME^2", "SHARE^2", "A0^2", "MICRO^3", "SAME^3", "CASC^2", "CASC^3", "TERN^2", "CASE^2", "PAY^2"].contains(&name.as_str()) || (tier == Tier::Thorough && ["CORE^2", "BIND^2", "T3^2", "SELF^2"].contains(&name.as_str()));
         if cheap {
             // ... and with a non-trivial analysis attached (naming NumericOff(0) stands for "numeric names, min-size analysis")
             cong_exec_named(&ops, flips, self.sound, !self.sound, &[Naming::Numeric, Naming::FreshNext, Naming::TextRev, Naming::ParsedPadded, WITH_ANALYSIS])
